@@ -7,17 +7,20 @@ namespace Gin.C02
 open Gin Gin.Parser
 
 /-- Completeness of the value parser: every layout of every literal of the rendered grammar —
-    atoms, lists, the three parenthesis shapes `()`, `(x)`, "at least one comma", optional trailing
-    commas, line breaks and comments after every opener, comma and closer, to any nesting depth —
-    parses to exactly that literal and stops right after it (trivia skipped). -/
-theorem parseValue_complete (l : L) (rest : List Token) (hr : Clean rest) :
+    atoms, numbers with a leading minus, runs of adjacent string literals, lists, dicts, the three
+    parenthesis shapes `()`, `(x)`, "at least one comma", optional trailing commas, line breaks and
+    comments after every opener, colon, comma, closer and string piece, to any nesting depth — parses
+    to exactly that literal and stops right after it (trivia skipped).  `NoStr rest`: what follows is
+    not yet another string literal (which Python, too, would concatenate). -/
+theorem parseValue_complete (l : L) (rest : List Token) (hr : Clean rest) (hns : NoStr rest) :
     parseValue false (size l) (render l ++ rest) = .ok (val l, dropTriv rest) :=
-  parse_render l (size l) rest hr (Nat.le_refl _)
+  parse_render l (size l) rest hr hns (Nat.le_refl _)
 
 /-- More fuel never changes the answer (the fuel only bounds nesting). -/
 theorem parseValue_complete_fuel (l : L) (n : Nat) (rest : List Token) (hr : Clean rest)
-    (h : size l ≤ n) : parseValue false n (render l ++ rest) = .ok (val l, dropTriv rest) :=
-  parse_render l n rest hr h
+    (hns : NoStr rest) (h : size l ≤ n) :
+    parseValue false n (render l ++ rest) = .ok (val l, dropTriv rest) :=
+  parse_render l n rest hr hns h
 
 /-- `(x)` is `x`, not a tuple … -/
 theorem paren_is_value (j0 : List Bool) (x : L) (j : List Bool) : val (.paren j0 x j) = val x := by
@@ -31,10 +34,10 @@ theorem one_tuple_needs_comma (j0 n1 j : List Bool) (x : L) :
 /-- The layout (trivia and trailing commas) never matters: two renderings of the same literal tree
     that differ only in layout parse to the same value. -/
 theorem layout_irrelevant (l₁ l₂ : L) (r₁ r₂ : List Token) (h₁ : Clean r₁) (h₂ : Clean r₂)
-    (hv : val l₁ = val l₂) :
+    (n₁ : NoStr r₁) (n₂ : NoStr r₂) (hv : val l₁ = val l₂) :
     (parseValue false (size l₁) (render l₁ ++ r₁)).toOption.map (·.1) =
     (parseValue false (size l₂) (render l₂ ++ r₂)).toOption.map (·.1) := by
-  rw [parseValue_complete l₁ r₁ h₁, parseValue_complete l₂ r₂ h₂]
+  rw [parseValue_complete l₁ r₁ h₁ n₁, parseValue_complete l₂ r₂ h₂ n₂]
   simp [Except.toOption, hv]
 
 /-- Trailing junk: a statement whose value is followed by anything but NEWLINE / DEDENT /
@@ -55,6 +58,15 @@ theorem adjacent_strings_concat (a b : String) :
     concatAtoms (.bytes a) (.bytes b) = some (.bytes (a ++ b)) ∧
     concatAtoms (.str a) (.bytes b) = none ∧ concatAtoms (.bytes a) (.str b) = none := by
   simp [concatAtoms]
+
+/-- the new shapes evaluate as Python does: `- 3` is the negated number, adjacent pieces concatenate,
+    a dict keeps its entries in order -/
+theorem new_shapes (j1 j : List Bool) (v : Val) (s0 : String) (j0 : List Bool) (s1 : String)
+    (k w : L) (a : List Bool) :
+    val (.natom j1 v j) = .lit v ∧
+    val (.strs s0 j0 [(s1, j)]) = .lit (.str (s0 ++ s1)) ∧
+    val (.dict j0 [] (some (k, a, w)) j) = .dict [(val k, val w)] := by
+  simp [val, valEntries, valDFinal, joinStrs]
 
 /-! Non-vacuity: `[ # c \n 1, (2,), ]` -/
 def demo : L :=
